@@ -12,7 +12,7 @@ import sp_common as spc
 import sp_history
 import tlc
 
-ISSUER = {'idp1': env.IDP1, 'idp2': env.IDP2, 'unknown': 'urn:verif:unknown-idp'}
+ISSUER = {'idp1': env.IDP1, 'idp2': env.IDP2, 'unknown': 'urn:verif:unknown-idp', 'idp1case': env.IDP1.upper()}
 
 
 def metadata(descriptors, layout):
@@ -22,7 +22,7 @@ def metadata(descriptors, layout):
     return mds
 
 
-REQ_ISSUER = {'idp1': env.SP, 'idp2': env.SP2, 'unknown': 'urn:verif:unknown-sp'}
+REQ_ISSUER = {'idp1': env.SP, 'idp2': env.SP2, 'unknown': 'urn:verif:unknown-sp', 'idp1case': env.SP.upper()}
 
 
 def replay_request(case):
